@@ -7,7 +7,8 @@ import (
 	"strings"
 )
 
-// bounded byte-vector string: n = length (int or symI w=64), b = bytes (uint8 or symI w=8), len(b) = max
+// bounded byte-vector string: n = length (int or symI w=64), b = bytes (uint8 or symI w=8);
+// len(b) is the capacity: n <= len(b) is asserted when n is symbolic.
 type symStr struct {
 	n value
 	b []value
@@ -20,7 +21,7 @@ func byteTerm(v value) string {
 	case symI:
 		return x.t
 	}
-	panic(fmt.Sprintf("byteTerm %T", v))
+	panic(fmt.Sprintf("engine: byteTerm %T", v))
 }
 func lenTerm(v value) string {
 	switch x := v.(type) {
@@ -29,63 +30,122 @@ func lenTerm(v value) string {
 	case symI:
 		return x.t
 	}
-	panic(fmt.Sprintf("lenTerm %T", v))
+	panic(fmt.Sprintf("engine: lenTerm %T", v))
 }
 
-func newSymStr(name string, max int) symStr {
-	n := symI{64, true, types.Int, cur.fresh("(_ BitVec 64)", name+".len")}
+func newSymStr(name string, max int) (symStr, ndVar) {
+	nt := cur.declare(name+".len", bvSort(64))
+	n := symI{64, true, types.Int, nt}
 	cur.assume(fmt.Sprintf("(bvule %s %s)", n.t, bvConst(uint64(max), 64)))
 	s := symStr{n: n}
+	v := ndVar{Name: name, Kind: "string", term: nt}
 	for i := 0; i < max; i++ {
-		s.b = append(s.b, symI{8, false, types.Uint8, cur.fresh("(_ BitVec 8)", fmt.Sprintf("%s.b%d", name, i))})
+		bt := cur.declare(fmt.Sprintf("%s.b%d", name, i), bvSort(8))
+		s.b = append(s.b, symI{8, false, types.Uint8, bt})
+		v.bts = append(v.bts, bt)
 	}
-	return s
+	return s, v
 }
 
-// s[i] with concrete i; forks an out-of-range panic path when not provably in range
+// concreteLen forks on the length until it is concrete.
+func (s symStr) concreteLen() int {
+	switch n := s.n.(type) {
+	case int:
+		return n
+	case symI:
+		return int(int64(cur.concretize(n)))
+	}
+	panic("engine: concreteLen")
+}
+
+// withConcreteLen returns the same string with a concrete length (forking).
+func (s symStr) withConcreteLen() symStr {
+	n := s.concreteLen()
+	return symStr{n: n, b: s.b[:n]}
+}
+
+func oob(msg string) targetPanic {
+	return targetPanic{iface{cur.interp.runtimeErrorString, "runtime error: " + msg}}
+}
+
+// s[i] with concrete i
 func (s symStr) index(i int) value {
 	if n, ok := s.n.(int); ok {
 		if i < 0 || i >= n {
-			panic(targetPanic{fmt.Sprintf("index out of range [%d] with length %d", i, n)})
+			panic(oob(fmt.Sprintf("index out of range [%d] with length %d", i, n)))
 		}
 		return s.b[i]
 	}
 	if i < 0 || i >= len(s.b) || !cur.branch(fmt.Sprintf("(bvsgt %s %s)", lenTerm(s.n), bvConst(uint64(i), 64))) {
-		panic(targetPanic{fmt.Sprintf("index out of range [%d] (symbolic length)", i)})
+		panic(oob(fmt.Sprintf("index out of range [%d]", i)))
 	}
 	return s.b[i]
+}
+
+// s[idx] with symbolic idx: bounds-check branch + ite chain
+func (s symStr) indexSym(idx symI) value {
+	if len(s.b) == 0 {
+		panic(oob("index out of range (empty string)"))
+	}
+	inb := fmt.Sprintf("(and (bvsge %s %s) (bvslt %s %s))", idx.t, bvConst(0, 64), idx.t, lenTerm(s.n))
+	if !cur.branch(inb) {
+		panic(oob("index out of range (symbolic index)"))
+	}
+	t := byteTerm(s.b[len(s.b)-1])
+	for i := len(s.b) - 2; i >= 0; i-- {
+		t = fmt.Sprintf("(ite (= %s %s) %s %s)", idx.t, bvConst(uint64(i), 64), byteTerm(s.b[i]), t)
+	}
+	return newI(8, false, types.Uint8, t)
 }
 
 func (s symStr) slice(lo, hi value) value {
 	l := 0
 	if lo != nil {
-		l = int(asInt64(lo))
+		if sl, ok := lo.(symI); ok {
+			l = int(int64(cur.concretize(sl)))
+		} else {
+			l = int(asInt64(lo))
+		}
+	}
+	if l < 0 {
+		panic(oob("slice bounds out of range"))
 	}
 	if hi == nil {
-		// s[l:] : need l <= len
 		if n, ok := s.n.(int); ok {
+			if l > n {
+				panic(oob("slice bounds out of range"))
+			}
 			return symStr{n: n - l, b: s.b[l:n]}.norm()
 		}
 		if l > len(s.b) || !cur.branch(fmt.Sprintf("(bvsge %s %s)", lenTerm(s.n), bvConst(uint64(l), 64))) {
-			panic(targetPanic{"slice bounds out of range"})
+			panic(oob("slice bounds out of range"))
 		}
-		return symStr{n: symI{64, true, types.Int, fmt.Sprintf("(bvsub %s %s)", lenTerm(s.n), bvConst(uint64(l), 64))}, b: s.b[l:]}.norm()
+		if l == 0 {
+			return s
+		}
+		return symStr{n: newI(64, true, types.Int, fmt.Sprintf("(bvsub %s %s)", lenTerm(s.n), bvConst(uint64(l), 64))), b: s.b[l:]}.norm()
 	}
 	if sh, ok := hi.(symI); ok {
-		// symbolic upper bound, concrete lower bound: l <= hi <= len
 		okc := fmt.Sprintf("(and (bvsle %s %s) (bvsle %s %s))", bvConst(uint64(l), 64), sh.t, sh.t, lenTerm(s.n))
 		if !cur.branch(okc) {
-			panic(targetPanic{"slice bounds out of range (symbolic)"})
+			panic(oob("slice bounds out of range (symbolic)"))
 		}
-		return symStr{n: symI{64, true, types.Int, fmt.Sprintf("(bvsub %s %s)", sh.t, bvConst(uint64(l), 64))}, b: s.b[l:]}.norm()
+		nt := sh.t
+		if l != 0 {
+			nt = fmt.Sprintf("(bvsub %s %s)", sh.t, bvConst(uint64(l), 64))
+		}
+		if l > len(s.b) {
+			l = len(s.b)
+		}
+		return symStr{n: newI(64, true, types.Int, nt), b: s.b[l:]}.norm()
 	}
 	h := int(asInt64(hi))
 	if n, ok := s.n.(int); ok {
 		if h > n || l > h {
-			panic(targetPanic{"slice bounds out of range"})
+			panic(oob("slice bounds out of range"))
 		}
-	} else if h > len(s.b) || !cur.branch(fmt.Sprintf("(bvsge %s %s)", lenTerm(s.n), bvConst(uint64(h), 64))) {
-		panic(targetPanic{"slice bounds out of range"})
+	} else if h > len(s.b) || l > h || !cur.branch(fmt.Sprintf("(bvsge %s %s)", lenTerm(s.n), bvConst(uint64(h), 64))) {
+		panic(oob("slice bounds out of range"))
 	}
 	return symStr{n: h - l, b: s.b[l:h]}.norm()
 }
@@ -94,13 +154,16 @@ func (s symStr) slice(lo, hi value) value {
 func (s symStr) norm() value {
 	n, ok := s.n.(int)
 	if !ok {
+		if len(s.b) == 0 {
+			return ""
+		}
 		return s
 	}
 	var sb strings.Builder
 	for i := 0; i < n; i++ {
 		c, ok := s.b[i].(uint8)
 		if !ok {
-			return s
+			return symStr{n: n, b: s.b[:n]}
 		}
 		sb.WriteByte(c)
 	}
@@ -121,122 +184,109 @@ func liftStr(v value) (symStr, bool) {
 	return symStr{}, false
 }
 
-func symStrEq(a, b symStr) symB {
-	conj := []string{fmt.Sprintf("(= %s %s)", lenTerm(a.n), lenTerm(b.n))}
+func symStrEq(a, b symStr) string {
+	an, aok := a.n.(int)
+	bn, bok := b.n.(int)
+	if aok && bok && an != bn {
+		return "false"
+	}
 	m := len(a.b)
 	if len(b.b) < m {
 		m = len(b.b)
 	}
-	// lengths beyond the shorter capacity are impossible
-	conj = append(conj, fmt.Sprintf("(bvule %s %s)", lenTerm(a.n), bvConst(uint64(m), 64)))
-	for i := 0; i < m; i++ {
-		conj = append(conj, fmt.Sprintf("(or (bvule %s %s) (= %s %s))", lenTerm(a.n), bvConst(uint64(i), 64), byteTerm(a.b[i]), byteTerm(b.b[i])))
-	}
-	return symB{"(and " + strings.Join(conj, " ") + ")"}
-}
-
-// pointer to an element selected by a symbolic index (read-only)
-type symIdxPtr struct {
-	elems []value
-	idx   symI
-}
-
-// load through a symbolic index: ite chain grouped by distinct concrete values
-func (p symIdxPtr) load() value {
-	return iteLoad(p.elems, p.idx)
-}
-
-func iteLoad(elems []value, idx symI) value {
-	switch e0 := elems[0].(type) {
-	case structure:
-		out := make(structure, len(e0))
-		for f := range e0 {
-			col := make([]value, len(elems))
-			for i := range elems {
-				col[i] = elems[i].(structure)[f]
+	conj := []string{}
+	if !(aok && bok) {
+		conj = append(conj, fmt.Sprintf("(= %s %s)", lenTerm(a.n), lenTerm(b.n)))
+		// lengths beyond the shorter capacity are impossible
+		if !aok {
+			if len(a.b) > m {
+				conj = append(conj, fmt.Sprintf("(bvule %s %s)", lenTerm(a.n), bvConst(uint64(m), 64)))
 			}
-			out[f] = iteLoad(col, idx)
 		}
-		return out
-	}
-	// scalar column: group indices by value
-	groups := map[string][]int{}
-	var order []string
-	w, signed, kind := 0, false, types.Invalid
-	for i, e := range elems {
-		si, ok := liftI(e)
-		if !ok {
-			panic(fmt.Sprintf("iteLoad elem %T", e))
-		}
-		w, signed, kind = si.w, si.signed, si.kind
-		if _, seen := groups[si.t]; !seen {
-			order = append(order, si.t)
-		}
-		groups[si.t] = append(groups[si.t], i)
-	}
-	if len(order) == 1 {
-		si, _ := liftI(elems[0])
-		return si
-	}
-	// biggest group becomes the default
-	def := order[0]
-	for _, k := range order {
-		if len(groups[k]) > len(groups[def]) {
-			def = k
+		if !bok {
+			if len(b.b) > m {
+				conj = append(conj, fmt.Sprintf("(bvule %s %s)", lenTerm(b.n), bvConst(uint64(m), 64)))
+			}
 		}
 	}
-	t := def
-	for _, k := range order {
-		if k == def {
+	if aok && an < m {
+		m = an
+	}
+	if bok && bn < m {
+		m = bn
+	}
+	ln := a.n
+	if !aok && bok {
+		ln = b.n
+	}
+	for i := 0; i < m; i++ {
+		eq := fmt.Sprintf("(= %s %s)", byteTerm(a.b[i]), byteTerm(b.b[i]))
+		if ab, ok1 := a.b[i].(uint8); ok1 {
+			if bb, ok2 := b.b[i].(uint8); ok2 {
+				if ab == bb {
+					eq = "true"
+				} else {
+					eq = "false"
+				}
+			}
+		}
+		if _, ok := ln.(int); ok {
+			conj = append(conj, eq)
+		} else {
+			conj = append(conj, mkOr(fmt.Sprintf("(bvule %s %s)", lenTerm(ln), bvConst(uint64(i), 64)), eq))
+		}
+	}
+	return mkAnd(conj...)
+}
+
+// lexicographic a < b (byte-wise, as Go compares strings)
+func symStrLess(a, b symStr) string {
+	m := len(a.b)
+	if len(b.b) > m {
+		m = len(b.b)
+	}
+	at := func(s symStr, i int) string {
+		if i < len(s.b) {
+			return byteTerm(s.b[i])
+		}
+		return bvConst(0, 8)
+	}
+	// less_i = "a[i:] < b[i:]"
+	res := "false"
+	for i := m; i >= 0; i-- {
+		ai := bvConst(uint64(i), 64)
+		aEnd := fmt.Sprintf("(bvule %s %s)", lenTerm(a.n), ai)
+		bEnd := fmt.Sprintf("(bvule %s %s)", lenTerm(b.n), ai)
+		if i == m {
+			res = mkAnd(aEnd, mkNot(bEnd))
 			continue
 		}
-		var ds []string
-		for _, i := range groups[k] {
-			ds = append(ds, fmt.Sprintf("(= %s %s)", idx.t, bvConst(uint64(i), idx.w)))
-		}
-		c := ds[0]
-		if len(ds) > 1 {
-			c = "(or " + strings.Join(ds, " ") + ")"
-		}
-		t = fmt.Sprintf("(ite %s %s %s)", c, k, t)
+		lt := fmt.Sprintf("(bvult %s %s)", at(a, i), at(b, i))
+		eq := fmt.Sprintf("(= %s %s)", at(a, i), at(b, i))
+		res = mkIte(bEnd, "false", mkIte(aEnd, "true", mkOr(lt, mkAnd(eq, res))))
 	}
-	return symI{w, signed, kind, t}
+	return res
 }
 
-func symShift(op token.Token, a symI, y value) value {
-	b, ok := liftI(y)
-	if !ok {
-		panic("shift count")
+// concat needs a concrete length for the left operand (forks on it)
+func symStrConcat(a, b symStr) value {
+	if bn, ok := b.n.(int); ok && bn == 0 {
+		return a.norm()
 	}
-	bt := b.t
-	switch {
-	case b.w < a.w:
-		bt = fmt.Sprintf("((_ zero_extend %d) %s)", a.w-b.w, b.t)
-	case b.w > a.w:
-		// counts >= width saturate; spike: truncate (counts are small constants here)
-		bt = fmt.Sprintf("((_ extract %d 0) %s)", a.w-1, b.t)
+	a = a.withConcreteLen()
+	out := symStr{}
+	out.b = append(out.b, a.b...)
+	out.b = append(out.b, b.b...)
+	an := a.n.(int)
+	if bn, ok := b.n.(int); ok {
+		out.n = an + bn
+		out.b = out.b[:an+bn]
+	} else if an == 0 {
+		out.n = b.n
+	} else {
+		out.n = newI(64, true, types.Int, fmt.Sprintf("(bvadd %s %s)", bvConst(uint64(an), 64), lenTerm(b.n)))
 	}
-	o := "bvshl"
-	if op == token.SHR {
-		o = "bvlshr"
-		if a.signed {
-			o = "bvashr"
-		}
-	}
-	return symI{a.w, a.signed, a.kind, fmt.Sprintf("(%s %s %s)", o, a.t, bt)}
-}
-
-// s[idx] with symbolic idx: bounds-check branch + ite chain
-func (s symStr) indexSym(idx symI) value {
-	inb := fmt.Sprintf("(and (bvsge %s %s) (bvslt %s %s))", idx.t, bvConst(0, 64), idx.t, lenTerm(s.n))
-	if !cur.branch(inb) {
-		panic(targetPanic{"index out of range (symbolic index)"})
-	}
-	t := byteTerm(s.b[len(s.b)-1])
-	for i := len(s.b) - 2; i >= 0; i-- {
-		t = fmt.Sprintf("(ite (= %s %s) %s %s)", idx.t, bvConst(uint64(i), 64), byteTerm(s.b[i]), t)
-	}
-	return symI{8, false, types.Uint8, t}
+	return out.norm()
 }
 
 type symStrIter struct {
@@ -246,7 +296,6 @@ type symStrIter struct {
 }
 
 func (it *symStrIter) next() tuple {
-	// done?
 	if n, ok := it.s.n.(int); ok {
 		if it.i >= n {
 			return tuple{false, nil, nil}
@@ -258,6 +307,10 @@ func (it *symStrIter) next() tuple {
 	rest := it.s.slice(it.i, nil)
 	res := call(it.fr.i, it.fr, token.NoPos, dec, []value{rest}).(tuple)
 	k := it.i
-	it.i += int(asInt64(res[1]))
+	sz := res[1]
+	if ss, ok := sz.(symI); ok {
+		sz = int(int64(cur.concretize(ss)))
+	}
+	it.i += int(asInt64(sz))
 	return tuple{true, k, res[0]}
 }
